@@ -32,6 +32,10 @@ func init() {
 	families["huge"] = genHuge
 	families["iter_share"] = genIterShare
 	families["merge_chain"] = genMergeChain
+	families["big_freq"] = genBigFreq
+	families["giant_posting"] = genGiantPosting
+	families["pool_vocab"] = genPoolVocab
+	families["dv_merge_order"] = genDvMergeOrder
 	families["wide_repeat"] = genWideRepeat
 	families["field_limit"] = genFieldLimit
 	families["mass_delete"] = genMassDelete
@@ -1688,6 +1692,41 @@ func genIterShare(r *rand.Rand, i int) Scenario {
 		}
 		sc.Ops = append(sc.Ops, o)
 	}
+	if i%3 == 1 {
+		// a twin segment: same shapes and sizes up to one frequency that needs a longer varint, so the term's
+		// sections start at the same offsets but their chunk tables differ; iterators travel between the twins
+		tw := make(Batch, len(b))
+		for d := range b {
+			tw[d] = make(Doc, len(b[d]))
+			copy(tw[d], b[d])
+			if d == nd-1 {
+				fi := tw[d][1]
+				ts := append([]TermOcc{}, fi.Terms...)
+				for k := range ts {
+					if string(ts[k].Term.Raw()) == "x" {
+						fi.Len += 300 - ts[k].Freq
+						ts[k].Freq = 300
+					}
+				}
+				fi.Terms = ts
+				tw[d][1] = fi
+			}
+		}
+		sc.Batches = append(sc.Batches, tw)
+		sc.Ops = append(sc.Ops, Op{Op: "build", Seg: 8, Batch: 1, Mode: mode})
+		sa, sb := 1, 8
+		if (i/3)%2 == 1 {
+			sa, sb = 8, 1
+		}
+		sc.Ops = append(sc.Ops,
+			Op{Op: "pl_open", Seg: sa, Field: "a", Term: B([]byte("x")), Pl: 44}, Op{Op: "it_open", Pl: 44, It: 54, Freq: true, Norm: true, Locs: i%2 == 0},
+			Op{Op: "it_next", It: 54}, Op{Op: "it_next", It: 54},
+			Op{Op: "pl_open", Seg: sb, Field: "a", Term: B([]byte("x")), Pl: 45, Prealloc: []int{0, 44}[(i/6)%2]},
+			Op{Op: "it_open_last", It: 54, Prealloc: 54, Freq: true, Norm: true, Locs: i%2 == 0})
+		for s := 0; s < nd+1; s++ {
+			sc.Ops = append(sc.Ops, Op{Op: "it_next_last"})
+		}
+	}
 	if i%3 == 0 {
 		// two readers, each: walk a term that has no location data at all with locations requested, hand the
 		// iterator back for a term that has locations, then both advance in turns
@@ -2012,5 +2051,166 @@ func genWideRepeat(r *rand.Rand, i int) Scenario {
 	for d := 0; d < nd; d++ {
 		sc.Ops = append(sc.Ops, Op{Op: "stored", Seg: 8, N: d})
 	}
+	return sc
+}
+
+// pool_vocab: vocabularies of very different sizes on one recycled builder - a batch with more than 10 000
+// distinct irregular terms, a medium one (thousands) and a small one, in every order, each compared with the
+// bytes of the same batch on a cold pool (C14)
+func genPoolVocab(r *rand.Rand, i int) Scenario {
+	mk := func(nterms, salt int) Batch {
+		doc := Doc{{Name: "_id", Len: 1, Stored: true, Value: B([]byte("v")), Terms: []TermOcc{{Term: B([]byte("v")), Freq: 1, Locs: []Loc{}}}}}
+		fi := FieldInst{Name: "a", Value: Bytes{}, Terms: make([]TermOcc, 0, nterms)}
+		seen := map[string]bool{}
+		for len(fi.Terms) < nterms {
+			// irregular terms: random length 3..12 over a 20-letter alphabet
+			n := 3 + r.Intn(10)
+			t := make([]byte, n)
+			for k := range t {
+				t[k] = byte('a' + r.Intn(20))
+			}
+			if seen[string(t)] {
+				continue
+			}
+			seen[string(t)] = true
+			fi.Terms = append(fi.Terms, TermOcc{Term: B(t), Freq: 1, Locs: []Loc{}})
+		}
+		fi.Len = nterms
+		_ = salt
+		return Batch{append(doc, fi)}
+	}
+	huge, medium, small := mk(10500+r.Intn(3000), 1), mk(2500+r.Intn(2500), 2), mk(5+r.Intn(30), 3)
+	sc := Scenario{Name: fmt.Sprintf("pool_vocab-%d", i), NormKind: "code", Universe: []string{"_id", "a"}, Batches: []Batch{huge, medium, small},
+		Tags: []string{"pool_vocab"}}
+	mode := []uint32{0, 1024, 2}[i%3]
+	// reference bytes on a cold pool
+	for j := 0; j < 3; j++ {
+		sc.Ops = append(sc.Ops, Op{Op: "build", Seg: 1 + j, Batch: j, Mode: mode, Cold: true})
+	}
+	orders := [][]int{{2, 0, 1, 2}, {0, 1, 2, 0}, {1, 0, 2, 1}, {2, 1, 0}}
+	h := 10
+	for _, j := range orders[i%len(orders)] {
+		h++
+		sc.Ops = append(sc.Ops, Op{Op: "build", Seg: h, Batch: j, Mode: mode})
+	}
+	// the first build of the warm history ran on whatever the pool held; a cold start of the same order too
+	h++
+	sc.Ops = append(sc.Ops, Op{Op: "build", Seg: h, Batch: orders[(i+1)%len(orders)][0], Mode: mode, Cold: true})
+	for _, j := range orders[(i+1)%len(orders)][1:] {
+		h++
+		sc.Ops = append(sc.Ops, Op{Op: "build", Seg: h, Batch: j, Mode: mode})
+	}
+	sc.Ops = append(sc.Ops, Op{Op: "contains", Seg: h, Field: "a", Term: B([]byte("abc"))})
+	return sc
+}
+
+// dv_merge_order: a small input (one doc-value chunk) merged before and after a large one (several chunks) that
+// shares the doc-value field; the INPUTS are read again afterwards and their digests compared (C07, C15)
+func genDvMergeOrder(r *rand.Rand, i int) Scenario {
+	mk := func(n, base int) Batch {
+		b := make(Batch, n)
+		for d := 0; d < n; d++ {
+			if n > 20 && d%211 != 0 && d != n-1 && d != 1024 {
+				b[d] = Doc{}
+				continue
+			}
+			id := []byte(fmt.Sprintf("o%d", base+d))
+			b[d] = Doc{{Name: "_id", Len: 1, Stored: true, Value: B(id), Terms: []TermOcc{{Term: B(id), Freq: 1, Locs: []Loc{}}}},
+				{Name: "f", Len: 1, DV: true, Value: Bytes{}, Terms: []TermOcc{{Term: B([]byte(fmt.Sprintf("t%d", d%7))), Freq: 1, Locs: []Loc{}}}},
+				{Name: "g", Len: 1, DV: true, Value: Bytes{}, Terms: []TermOcc{{Term: B([]byte("shared")), Freq: 1, Locs: []Loc{}}}}}
+		}
+		return b
+	}
+	small, large, small2 := mk(3+r.Intn(4), 0), mk(1026+r.Intn(1100), 1000), mk(2+r.Intn(3), 9000)
+	sc := Scenario{Name: fmt.Sprintf("dv_merge_order-%d", i), NormKind: "code", Universe: []string{"_id", "f", "g"}, Batches: []Batch{small, large, small2},
+		Tags: []string{"dv_merge_order"}}
+	sc.Ops = append(sc.Ops, Op{Op: "build", Seg: 1, Batch: 0, Mode: 0}, Op{Op: "build", Seg: 2, Batch: 1, Mode: 0}, Op{Op: "build", Seg: 3, Batch: 2, Mode: 0})
+	if i%2 == 1 {
+		sc.Ops = append(sc.Ops, Op{Op: "persist", Seg: 1, File: 9}, Op{Op: "load", File: 9, Seg: 1, Backing: []string{"mem", "file"}[r.Intn(2)]})
+	}
+	sc.Ops = append(sc.Ops, Op{Op: "digest"})
+	order := [][]int{{1, 2}, {1, 2, 3}, {2, 1}, {3, 1, 2}}[i%4]
+	dr := make([]DropSpec, len(order))
+	for k := range dr {
+		dr[k] = DropSpec{Kind: "nil"}
+	}
+	if r.Intn(2) == 0 {
+		dr[0] = DropSpec{Kind: "set", Docs: []int{0}}
+	}
+	sc.Ops = append(sc.Ops, Op{Op: "merge", File: 1, In: order, Drops: dr, Mode: 0, Buf: 4096}, Op{Op: "digest"})
+	// the inputs once more: doc values of every document of the small ones, samples of the large one
+	for _, seg := range []int{1, 3} {
+		n := len(small)
+		if seg == 3 {
+			n = len(small2)
+		}
+		sc.Ops = append(sc.Ops, Op{Op: "dv_open", Seg: seg, R: seg, Fields: []string{"f", "g"}})
+		for d := 0; d < n; d++ {
+			sc.Ops = append(sc.Ops, Op{Op: "dv_visit", R: seg, N: d})
+		}
+	}
+	sc.Ops = append(sc.Ops, Op{Op: "dv_open", Seg: 2, R: 2, Fields: []string{"g", "f"}})
+	for _, d := range []int{0, 211, 1024, len(large) - 1, 1055} {
+		sc.Ops = append(sc.Ops, Op{Op: "dv_visit", R: 2, N: d})
+	}
+	// and a second merge of the same inputs
+	sc.Ops = append(sc.Ops, Op{Op: "merge", File: 2, In: order, Drops: dr, Mode: 0, Buf: 4096}, Op{Op: "load", File: 2, Seg: 20, Backing: "mem"},
+		Op{Op: "dv_open", Seg: 20, R: 20, Fields: []string{"f", "g"}}, Op{Op: "dv_visit", R: 20, N: 0}, Op{Op: "dv_visit", R: 20, N: 1}, Op{Op: "dv_visit", R: 20, N: 2},
+		Op{Op: "digest"})
+	return sc
+}
+
+// giant_posting: one posting with more than 65 535 locations (a 16-bit count would wrap) followed by small
+// postings of the same term; built, iterated with locations, skipped by Advance (C01, C05)
+func genGiantPosting(r *rand.Rand, i int) Scenario {
+	nl := 65536 + []int{0, 1, 7}[i%3]
+	mkdoc := func(d, n int) Doc {
+		id := []byte(fmt.Sprintf("z%d", d))
+		occ := TermOcc{Term: B([]byte("x")), Freq: n, Locs: make([]Loc, n)}
+		for j := range occ.Locs {
+			occ.Locs[j] = Loc{Field: "", Pos: j + 1, Start: j % 1000, End: j%1000 + 1}
+		}
+		return Doc{{Name: "_id", Len: 1, Stored: true, Value: B(id), Terms: []TermOcc{{Term: B(id), Freq: 1, Locs: []Loc{}}}},
+			{Name: "a", Len: n, Value: Bytes{}, Terms: []TermOcc{occ}}}
+	}
+	b := Batch{mkdoc(0, 2), mkdoc(1, nl), mkdoc(2, 3), mkdoc(3, 1)}
+	sc := Scenario{Name: fmt.Sprintf("giant_posting-%d", i), NormKind: "code", Universe: []string{"_id", "a"}, Batches: []Batch{b}, Tags: []string{"giant_posting"}}
+	sc.Ops = append(sc.Ops, Op{Op: "build", Seg: 1, Batch: 0, Mode: []uint32{0, 1, 2}[i%3]},
+		Op{Op: "pl_open", Seg: 1, Field: "a", Term: B([]byte("x")), Pl: 10}, Op{Op: "it_open", Pl: 10, It: 20, Freq: true, Norm: true, Locs: true})
+	for k := 0; k < 5; k++ {
+		sc.Ops = append(sc.Ops, Op{Op: "it_next", It: 20})
+	}
+	// the giant posting skipped
+	sc.Ops = append(sc.Ops, Op{Op: "it_open", Pl: 10, It: 21, Freq: true, Norm: true, Locs: true}, Op{Op: "it_adv", It: 21, D: 2}, Op{Op: "it_next", It: 21}, Op{Op: "it_next", It: 21})
+	return sc
+}
+
+// big_freq: term frequencies near 2^31 in a few dozen documents: SumTotalTermFrequency passes 2^32, 2^35 and
+// 2^36 - the widths at which a 64-bit counter is most easily cut short; built, persisted, loaded, merged (C16)
+func genBigFreq(r *rand.Rand, i int) Scenario {
+	mk := func(n, base int) Batch {
+		b := make(Batch, n)
+		for d := 0; d < n; d++ {
+			id := []byte(fmt.Sprintf("b%d", base+d))
+			f := 2147483647 - r.Intn(1000)
+			if d%5 == 4 {
+				f = 1 + r.Intn(100)
+			}
+			b[d] = Doc{{Name: "_id", Len: 1, Stored: true, Value: B(id), Terms: []TermOcc{{Term: B(id), Freq: 1, Locs: []Loc{}}}},
+				{Name: "a", Len: f, Value: Bytes{}, Terms: []TermOcc{{Term: B([]byte("t")), Freq: f, Locs: []Loc{}}}}}
+		}
+		return b
+	}
+	n1 := []int{3, 18, 40, 70}[i%4] // sums around 2^32.6, 2^35.1, 2^36, 2^37
+	b1, b2 := mk(n1, 0), mk(20+r.Intn(10), 1000)
+	sc := Scenario{Name: fmt.Sprintf("big_freq-%d", i), NormKind: "const", Universe: []string{"_id", "a"}, Batches: []Batch{b1, b2}, Tags: []string{"big_freq"}}
+	sc.Ops = append(sc.Ops, Op{Op: "build", Seg: 1, Batch: 0, Mode: 0}, Op{Op: "build", Seg: 2, Batch: 1, Mode: 0},
+		Op{Op: "stats", Seg: 1, Field: "a"}, Op{Op: "stats", Seg: 2, Field: "a"},
+		Op{Op: "persist", Seg: 1, File: 1}, Op{Op: "load", File: 1, Seg: 3, Backing: []string{"mem", "file"}[i%2]}, Op{Op: "stats", Seg: 3, Field: "a"},
+		Op{Op: "merge", File: 2, In: []int{1, 2}, Drops: []DropSpec{{Kind: "nil"}, {Kind: "set", Docs: []int{0}}}, Mode: 0, Buf: 4096},
+		Op{Op: "load", File: 2, Seg: 4, Backing: "mem"}, Op{Op: "stats", Seg: 4, Field: "a"}, Op{Op: "stats", Seg: 4, Field: "_id"},
+		Op{Op: "stats_merge", Seg: 3, Seg2: 4, Field: "a"},
+		Op{Op: "pl_open", Seg: 4, Field: "a", Term: B([]byte("t")), Pl: 10}, Op{Op: "it_open", Pl: 10, It: 20, Freq: true, Norm: true, Locs: true},
+		Op{Op: "it_next", It: 20}, Op{Op: "it_next", It: 20}, Op{Op: "it_adv", It: 20, D: n1})
 	return sc
 }
